@@ -742,7 +742,7 @@ pub fn run(tier: Tier, seed: u64, replay: Option<&std::path::Path>) -> i32 {
     }
     let cases = match tier {
         Tier::Quick => 3000,
-        Tier::Thorough => 6_000,
+        Tier::Thorough => 60_000,
     };
     let out = run_sharded("C06", seed, cases, 200, strategy, run_case);
     let report = Report {
